@@ -128,7 +128,7 @@ def run(tier, seed):
     ok, info = prep(PROP)
     ob, dis = proof_gate(rep, PROP, ok, info)
     rng = random.Random(seed)
-    n_inputs = 60 if tier == "quick" else 200
+    n_inputs = 60 if tier == "quick" else 500
     flagsets = [tuple(f for f, b in zip(FLAGS, bits) if b) for bits in itertools.product([0, 1], repeat=6)]
     fixed = [("CREATE TABLE a (id int PRIMARY KEY, name text);\nCREATE TABLE b (id int PRIMARY KEY, name text);\nCREATE TABLE c (id int PRIMARY KEY, count int);\n",
               "-- name: Triple :many\nSELECT a.id, b.id, c.id, a.name, b.name FROM a, b, c WHERE a.id = $1 AND b.id = $2 AND c.id = $3 AND a.name = $4;\n\n"
